@@ -48,6 +48,11 @@
 
 using namespace asmjit;
 
+// Hook H1 (hooks/H1_arena_fault.patch).  Declared weak here so that this file still links against a tree without the
+// hook; `faults hook` / every run then says so instead of failing to build.
+extern "C" bool (*asmjit_verif_arena_fail)(size_t size, const void* arena, int site) __attribute__((weak));
+static bool hook_present() { return &asmjit_verif_arena_fail != nullptr; }
+
 // =========================================================================================================
 // Fault engine
 // =========================================================================================================
@@ -1092,6 +1097,7 @@ static int worker(const std::string& wl, const char* trace, bool thorough, unsig
   FILE* out = fopen(trace, "a");
   if (!out) return 3;
   vj::install_abort_handlers(out);
+  if (!hook_present()) { fprintf(stderr, "faults: hook H1 (asmjit_verif_arena_fail) is not present in this asmjit tree\n"); return 4; }
   asmjit_verif_arena_fail = arena_pred;
   g_sh = sh;
   uint64_t counts[4];
@@ -1142,6 +1148,7 @@ static int supervise(const std::string& wl, const char* trace, bool thorough, un
     int st = 0;
     waitpid(pid, &st, 0);
     if (WIFEXITED(st) && WEXITSTATUS(st) == 0 && sh->done) break;
+    if (WIFEXITED(st) && (WEXITSTATUS(st) == 4 || WEXITSTATUS(st) == 3)) return WEXITSTATUS(st);     // hook missing / usage: not a statement about the code
     // the worker died: attribute the death to the job in progress
     long cur = sh->cur;
     FILE* f = fopen(trace, "a");
@@ -1166,6 +1173,7 @@ static int supervise(const std::string& wl, const char* trace, bool thorough, un
 int main(int argc, char** argv) {
   g_verbose = g_verbose_early = getenv("FAULTS_VERBOSE") != nullptr;
   if (argc >= 2 && std::string(argv[1]) == "list") { for (auto w : kWorkloads) puts(w); return 0; }
+  if (argc >= 2 && std::string(argv[1]) == "hook") { puts(hook_present() ? "H1 present" : "H1 missing"); return hook_present() ? 0 : 4; }
   if (argc >= 7 && std::string(argv[1]) == "run") {
     unsigned masks = argc >= 8 ? unsigned(atoi(argv[7])) : 0;
     return supervise(argv[3], argv[2], std::string(argv[4]) == "thorough", unsigned(atoi(argv[5])), unsigned(atoi(argv[6])), masks, nullptr);
